@@ -351,13 +351,15 @@ def load_known():
 
 # --------------------------------------------------------------------------- check
 
-def check(prop, tier, jobs, keep, only=None):
+def check(prop, tier, jobs, keep, only=None, thorough_only=False):
     global PARTIAL
-    PARTIAL = bool(only)
+    PARTIAL = bool(only) or thorough_only
     t0 = time.time()
     seed = int(os.environ.get('VERIF_SEED', '0') or 0)
     allh = scan_harnesses()
     sel = [h for h in allh if prop in h.props and (tier == 'thorough' or h.tier == 'quick')]
+    if thorough_only:
+        sel = [h for h in sel if h.tier == 'thorough']
     if only:
         sel = [h for h in sel if any(o in h.name for o in only)]
     if not sel:
@@ -596,6 +598,7 @@ def main(argv):
     c.add_argument('--jobs', type=int, default=int(os.environ.get('VERIF_JOBS', '12')))
     c.add_argument('--keep', action='store_true')
     c.add_argument('--only', action='append')
+    c.add_argument('--thorough-only', action='store_true', help='run only the thorough-tier harnesses (validation aid; writes no evidence)')
     r = sub.add_parser('replay')
     r.add_argument('path')
     l = sub.add_parser('list')
@@ -603,7 +606,7 @@ def main(argv):
     sub.add_parser('selftest')
     a = ap.parse_args(argv)
     if a.cmd == 'check':
-        return check(a.prop, a.tier, a.jobs, a.keep, a.only)
+        return check(a.prop, 'thorough' if a.thorough_only else a.tier, a.jobs, a.keep, a.only, a.thorough_only)
     if a.cmd == 'replay':
         return replay(a.path)
     if a.cmd == 'list':
